@@ -235,7 +235,7 @@ def _parts(tier):
     return [
         Part("enum-small-groups", "enum", check=check, cases=enum_cases, exhaustive=False, shards={"quick": 8, "thorough": 16}),
         Part("hyp-groupings", "hyp", check=check, strategy=lambda t: hyp_case(60 if t == "quick" else 150),
-             examples={"quick": 3200, "thorough": 32000}, shards={"quick": 16, "thorough": 16}),
+             examples={"quick": 2400, "thorough": 32000}, shards={"quick": 16, "thorough": 16}),
         Part("hyp-long-neighbours", "hyp", check=check, shrink=False,
              strategy=lambda t: gens.neighbour_compositions().flatmap(lambda comps: st.tuples(*[gens.by_composition(*c) for c in comps]).map(lambda ss: {"comps": comps, "seqs": list(ss)})),
              examples={"quick": 64, "thorough": 1200}, shards={"quick": 16, "thorough": 16}),
